@@ -175,6 +175,26 @@ def disjoint_sets(draw, n, min_inter=0, max_each=None):
     return perm[:a], perm[a:a + b]
 
 
+@st.composite
+def reactive_sets(draw, ch):
+    """Disjoint non-empty source/sink lists such that at least one intermediate state has a neighbour in each
+    set (its committor is strictly between 0 and 1): pick a hub with >= 2 neighbours, put one neighbour in
+    each set, label the remaining states freely."""
+    n = ch["n"]
+    M = np.array(ch["M"])
+    nbrs = [[j for j in range(n) if j != i and M[i][j] > 0] for i in range(n)]
+    hubs = [i for i in range(n) if len(nbrs[i]) >= 2]
+    hub = draw(st.sampled_from(hubs))
+    two = list(draw(st.permutations(nbrs[hub])))[:2]
+    rest = [i for i in range(n) if i != hub and i not in two]
+    labels = draw(st.lists(st.sampled_from([0, 0, 0, 1, 2]), min_size=len(rest), max_size=len(rest)))
+    src = [two[0]] + [i for i, l in zip(rest, labels) if l == 1]
+    snk = [two[1]] + [i for i, l in zip(rest, labels) if l == 2]
+    src = list(draw(st.permutations(src)))
+    snk = list(draw(st.permutations(snk)))
+    return src, snk
+
+
 SET_FORMS = ["list", "int64", "int32", "scalar", "tuple"]
 
 
